@@ -10,7 +10,8 @@
    the destination) when the sink operation [f] (if any) is made to fail. *)
 From BT Require Import Base.Util Base.LE Base.Float Generated.Consts Model.RTree Model.BBIFile Model.BigWigWrite
   Model.BBIRead Model.SinkTrace
-  Proofs.SinkBytes Proofs.SinkFault Proofs.SinkExec Proofs.SinkPhases Proofs.SinkRefine.
+  Proofs.RTreeCodec Proofs.BigWigFileChroms Proofs.BigWigFileRoundTrip Proofs.SinkBytes Proofs.SinkFault Proofs.SinkExec Proofs.SinkPhases Proofs.SinkRefine
+  Proofs.SinkRead Proofs.SinkServe Proofs.SinkFaultPrefix.
 Local Open Scope N_scope.
 
 Lemma sink_run_accepted f ck fp kind o sizes input p : bw_parts fp kind o sizes input = Ok p ->
@@ -203,6 +204,61 @@ Example C14_example_refused :
      = [(0, 304); (304, 40); (344, 8); (352, 36)].
 Proof.
   split; [intros p; vm_compute; discriminate|]. split; vm_compute; reflexivity.
+Qed.
+
+(* ------------------------------------------------------------------------------------------
+   What the READERS answer at a crash point that includes the header operation (composition with
+   the whole-file round trip of C01, redone for any image holding the regions: Proofs/SinkRead.v).
+   Hypotheses as in C01: [opts_ok] (block_size in 2..65535, items_per_slot in 1..65535),
+   [input_ok] (one run per chromosome, names without NUL and shorter than 2^32, fewer than 65536
+   chromosomes, lengths and value patterns below 2^32), file shorter than 2^64 bytes.
+   [serves sizes input F X]: read_info returns the SAME header, zoom directory and chromosome
+   table on the crash-point image X as on the finished file F, and every range query on a
+   chromosome that had data returns on X, as on F, exactly the accepted values overlapping the
+   range, clipped, in order, bit-identical.  (The total summary is what may still be missing;
+   zoom-level queries are covered at the byte level by C14_prefix_complete: the zoom directory,
+   every level's data and every level's index already hold their final bytes.) *)
+Theorem C14_prefix_serves : forall ck fp kind o sizes input p n c,
+  chunker_ok ck -> bw_parts fp kind o sizes input = Ok p -> kind = 0 \/ kind = 1 ->
+  opts_ok o -> input_ok sizes input -> Nlen (final_bytes p) < U64 ->
+  (header_index ck kind p < n)%nat ->
+  let T := snd (bw_sink_run None ck fp kind o sizes input) in
+  serves sizes input (replay T) (replay (cut_ops T n c)).
+Proof. exact crash_after_serves. Qed.
+Print Assumptions C14_prefix_serves.
+
+(* ------------------------------------------------------------------------------------------
+   After a failure of the destination (any operation, any kind), what has reached the destination
+   is the first n operations of the undisturbed trace, for some n: the call that issued the
+   failing operation returns the error, nothing further is attempted, and the drop of the
+   BufWriter at most retries the very write that failed.  So the destination is then in one of
+   the crash-point states above: refused by read_info, or complete. *)
+Theorem C14_fault_state : forall f ck fp kind o sizes input,
+  exists n, snd (bw_sink_run f ck fp kind o sizes input)
+            = firstn n (snd (bw_sink_run None ck fp kind o sizes input)).
+Proof.
+  intros f ck fp kind o sizes input. unfold bw_sink_run, sink_run.
+  assert (H : forall status cs, exists n, snd (run f status cs) = firstn n (snd (run None status cs))).
+  { intros status cs. destruct (fault_prefix f status cs) as [t E]. exists (length (snd (run f status cs))).
+    rewrite E, firstn_app, Nat.sub_diag, firstn_all. cbn [firstn]. now rewrite app_nil_r. }
+  destruct (bw_parts fp kind o sizes input); apply H.
+Qed.
+Print Assumptions C14_fault_state.
+
+Example C14_example_serves_hyps : opts_ok ex_o /\ input_ok ex_sizes ex_input
+  /\ exists p, bw_parts ieee 0 ex_o ex_sizes ex_input = Ok p /\ Nlen (final_bytes p) < U64.
+Proof.
+  split; [unfold opts_ok, ex_o; cbn [o_bs o_ips]; lia|]. split.
+  - unfold input_ok.
+    assert (Hr : map fst (runs ex_input) = [ex_chr1]) by (vm_compute; reflexivity).
+    assert (Hn : Nlen (runs ex_input) = 1) by (vm_compute; reflexivity).
+    rewrite Hr, Hn. split; [|split; [|split]].
+    + constructor; [|constructor]. split; [|unfold U32; vm_compute; reflexivity].
+      unfold BigWigFileChroms.no_zero, ex_chr1. repeat (constructor; [discriminate|]). constructor.
+    + unfold U16. lia.
+    + unfold ex_sizes. constructor; [|constructor]. cbn [snd]. unfold U32. lia.
+    + unfold ex_input. constructor; [|constructor; [|constructor]]; cbn [snd v_bits]; unfold U32; lia.
+  - eexists. split; [vm_compute; reflexivity|]. unfold U64. vm_compute. reflexivity.
 Qed.
 
 (* ------------------------------------------------------------------------------------------
